@@ -230,6 +230,73 @@ pub fn run_check(replay: Option<Value>) -> i32 {
             }
         }
     }
+    // stiff tracking problems (Prothero-Robinson, y' = -lam (y - cos t) - sin t, y = cos t) with the implicit
+    // methods: first and post-rejection attempts take the branches of the error estimator that are never
+    // entered on non-stiff problems.  Inside the steps the collocation polynomial of a stiff step is known to
+    // be less accurate than the step ends (measured up to 200x on the tree), so the clause is the coarse one:
+    // endpoints within 1e-3 => nothing inside a step is off by more than 2e-2 (or 500x the endpoint error)
+    for m in [Method::RADAU, Method::BDF] {
+        for backward in [false, true] {
+            for (li, lam) in [1e2, 1e4].iter().enumerate() {
+                for (ti, tl) in [1e-3, 1e-6].iter().enumerate() {
+                    for fs in [None, Some(0.1)] {
+                        let lam = *lam;
+                        let p0 = Prob {
+                            name: format!("Prothero-Robinson lam={:e}", lam),
+                            n: 1,
+                            f: std::sync::Arc::new(move |t, y, d| d[0] = -lam * (y[0] - t.cos()) - t.sin()),
+                            jac: Some(std::sync::Arc::new(move |_t, _y| vec![-lam])),
+                            flow: Some(std::sync::Arc::new(move |s0, y0, s1| vec![s1.cos() + (y0[0] - s0.cos()) * (-lam * (s1 - s0)).exp()])),
+                            y0: vec![1.0],
+                            linear_homogeneous: false,
+                        };
+                        let pr = if backward { reflect(&p0) } else { p0 };
+                        let xend = if backward { -3.0 } else { 3.0 };
+                        let mut c = Cfg::new(m, 0.0, xend, &pr.y0).tol(*tl, tl * 1e-2);
+                        c.dense = true;
+                        c.user_jac = true;
+                        c.first_step = fs.map(|h: f64| if backward { -h } else { h });
+                        let r = run(&pr, &c);
+                        rep.evaluations += 1;
+                        rep.transitions += r.st.n_ode;
+                        let key = format!("stiffdense:{}:{}:{}:{}:{}", mname(m), backward as u8, li, ti, fs.is_some() as u8);
+                        let s = match r.sol() {
+                            Some(s) if s.status == Status::Success => s,
+                            _ => {
+                                rep.machinery_errors.push(format!("stiff dense scene {}: run ended with {}", key, r.outcome_name()));
+                                continue;
+                            }
+                        };
+                        let errof = |t: f64, v: &[f64]| (v[0] - t.cos()).abs();
+                        let worst_end = s.t.iter().zip(&s.y).fold(0.0f64, |a, (t, y)| a.max(errof(*t, y)));
+                        let mut worst_in: (f64, f64) = (0.0, 0.0);
+                        for k in 0..s.t.len() - 1 {
+                            for th in [0.1, 0.25, 0.5, 0.75, 0.9] {
+                                let t = s.t[k] + th * (s.t[k + 1] - s.t[k]);
+                                let e = s.sol(t).map(|v| errof(t, &v)).unwrap_or(f64::INFINITY);
+                                if e > worst_in.0 {
+                                    worst_in = (e, t);
+                                }
+                            }
+                        }
+                        rep.validated += 1;
+                        if s.nrejct > 0 {
+                            *rep.tags.entry("stiff-dense-with-rejections".into()).or_insert(0) += 1;
+                        }
+                        if std::env::var("VERIF_DEBUG").is_ok() {
+                            println!("DBG stiffdense {} end={:e} in={:e} nrejct={}", key, worst_end, worst_in.0, s.nrejct);
+                        }
+                        if worst_end < 1e-3 && worst_in.0 > (500.0 * worst_end).max(2e-2) {
+                            rep.violations.push(
+                                Violation::new(&key, "stiff-dense", format!("{}{} on {} (rtol {:e}, first_step {:?}): sol({:e}) is off by {:e} while every step end is within {:e}", mname(m), if backward { " backward" } else { "" }, pr.name, tl, fs, worst_in.1, worst_in.0, worst_end), json!({"key": key}))
+                                    .with("method", mname(m)),
+                            );
+                        }
+                    }
+                }
+            }
+        }
+    }
     // sol(t) / sol_many / t_eval through solve_ivp are as trustworthy as the endpoints (both directions)
     // the last one is dissipative (y' = -20 (y - g) + g', y = g): its endpoint errors stay at the level of
     // the local error, so that a loss of one order inside the steps is not hidden by accumulated error
@@ -410,8 +477,15 @@ pub fn run_check(replay: Option<Value>) -> i32 {
     // low-level API: the interpolant a callback obtains by asking for output inside the next step (XOut)
     // from a solver built with dense_output(false) is the same interpolant a dense_output(true) solver
     // hands out at every step (forward runs: XOut is a point ahead in the direction of increasing x)
+    // (backward runs: the library only honours XOut for increasing x and hands out no interpolant otherwise; what
+    // is demanded there is only that an interpolant, whenever one is handed out, is that step's own)
     for m in [Method::RK4, Method::RK23, Method::DOPRI5, Method::DOP853, Method::RADAU] {
-        for (pi, (p0, span)) in sprobs.iter().enumerate() {
+      for backward in [false, true] {
+        for (pi, (pf, spanf)) in sprobs.iter().enumerate() {
+            let pb = reflect(pf);
+            let p0 = if backward { &pb } else { pf };
+            let sp = if backward { -*spanf } else { *spanf };
+            let span = &sp;
             let mut c = Cfg::new(m, 0.0, *span, &p0.y0).tol(1e-6, 1e-8);
             c.user_jac = true;
             if m == Method::RK4 {
@@ -424,12 +498,12 @@ pub fn run_check(replay: Option<Value>) -> i32 {
           // the requested output point: far behind (always passed), or exactly the end of the next step
           for variant in 0..2usize {
             let script: Vec<(usize, Ans)> = (0..a.recs.len() + 2)
-                .map(|k| (k, Ans::XOut(if variant == 0 { -1.0 } else { a.recs.get(k + 1).map(|q| q.x).unwrap_or(*span) })))
+                .map(|k| (k, Ans::XOut(if variant == 0 { if backward { 1.0 } else { -1.0 } } else { a.recs.get(k + 1).map(|q| q.x).unwrap_or(*span) })))
                 .collect();
             let b = run_lowlevel(p0, &cb, &script, &thetas, None, false);
             rep.evaluations += 2;
             rep.transitions += a.st.n_ode + b.st.n_ode;
-            let key = format!("xout:{}:{}:{}", mname(m), pi, variant);
+            let key = format!("xout:{}:{}:{}:{}", mname(m), pi, variant, backward as u8);
             let mut bad: Option<String> = None;
             if a.ok().is_none() || b.ok().is_none() || a.recs.len() != b.recs.len() || a.recs.len() < 3 {
                 bad = Some(format!("runs ended with {} ({} callbacks) / {} ({} callbacks)", a.outcome_name(), a.recs.len(), b.outcome_name(), b.recs.len()));
@@ -441,8 +515,14 @@ pub fn run_check(replay: Option<Value>) -> i32 {
                         break;
                     }
                     if !rb.has_interp {
+                        if backward {
+                            continue;
+                        }
                         bad = Some(format!("step {}: no interpolant although output inside the step was requested through XOut", j));
                         break;
+                    }
+                    if backward {
+                        *rep.tags.entry("xout-backward-interpolant".into()).or_insert(0) += 1;
                     }
                     let (ia, ib) = (&a.interior[j], &b.interior[j]);
                     if ia.len() != ib.len() || ia.iter().zip(ib).any(|(u, v)| u.1.iter().zip(&v.1).any(|(x, y)| x.to_bits() != y.to_bits())) {
@@ -458,6 +538,7 @@ pub fn run_check(replay: Option<Value>) -> i32 {
             }
           }
         }
+      }
     }
     if let Some(case) = replay {
         if let Some(name) = case["regression"].as_str() {
